@@ -33,6 +33,8 @@ fn interesting_const(r: &mut Rng, c: u8) -> I<'static> {
 }
 
 impl<'a> Ctx<'a> {
+    /// does the instruction list end in dead position (after an unconditional transfer followed by our `unreachable` isolation)?
+    fn ends_dead(&self, out: &Vec<I<'static>>) -> bool { matches!(out.last(), Some(I::Unreachable) | Some(I::Br(_)) | Some(I::BrTable(..)) | Some(I::Return) | Some(I::ReturnCall(_)) | Some(I::ReturnCallIndirect { .. })) }
     fn pick_label(&mut self, labels: &Vec<Vec<u8>>) -> usize {
         loop { let d = self.r.usize(labels.len()); if self.cfg.profile == Profile::Exec && self.loops.contains(&(labels.len() - 1 - d)) { continue; } return d; }
     }
@@ -142,7 +144,13 @@ impl<'a> Ctx<'a> {
                     self.info.blocks += 1;
                     match self.r.below(3) {
                         0 => { out.push(I::Block(bt)); self.note("Block"); labels.push(rs.clone()); let b = self.seq(labels, ps.clone(), &rs, depth + 1); out.extend(b); labels.pop(); out.push(I::End); }
-                        1 => { out.push(I::Loop(bt)); self.note("Loop"); self.loops.push(labels.len()); labels.push(ps.clone()); let b = self.seq(labels, ps.clone(), &rs, depth + 1); out.extend(b); labels.pop(); self.loops.pop(); out.push(I::End); }
+                        1 => { // Exec profile: half of the parameterless loops really iterate - a counter local reserved for this nesting depth runs from K down to 0
+                               let counted = self.cfg.profile == Profile::Exec && ps.is_empty() && depth < 4 && self.r.chance(1, 2);
+                               let c = self.nparams as u32 + 10 + depth as u32;
+                               if counted { out.push(I::I32Const(1 + self.r.below(3) as i32)); out.push(I::LocalSet(c)); }
+                               out.push(I::Loop(bt)); self.note("Loop"); self.loops.push(labels.len()); labels.push(ps.clone()); let b = self.seq(labels, ps.clone(), &rs, depth + 1); out.extend(b); labels.pop(); self.loops.pop();
+                               if counted && !self.ends_dead(&out) { out.push(I::LocalGet(c)); out.push(I::I32Const(1)); out.push(I::I32Sub); out.push(I::LocalTee(c)); out.push(I::BrIf(0)); }
+                               out.push(I::End); }
                         _ => { self.push_val(&mut out, 0); out.push(I::If(bt)); self.note("If"); labels.push(rs.clone());
                                let b = self.seq(labels, ps.clone(), &rs, depth + 1); out.extend(b);
                                if ps != rs || self.r.chance(1, 2) { out.push(I::Else); self.note("Else"); let e = self.seq(labels, ps.clone(), &rs, depth + 1); out.extend(e); }
@@ -237,7 +245,7 @@ pub fn module(r: &mut Rng, tab: &Table, cfg: &GenCfg) -> (Vec<u8>, GInfo) {
         let mut cx = Ctx { r, tab, cfg, info: &mut info, types: &types, func_types: &func_types, nparams: ps.len(), params: ps.clone(), results: rs.clone(), by_first_param: by_first_param.clone(), loops: vec![], cur: fi };
         let mut labels = vec![rs.clone()];
         let body = cx.seq(&mut labels, vec![], &rs, 0);
-        let mut decls = env::local_decls(); decls.push((1, we::ValType::I32)); decls.push((1, we::ValType::I64)); decls.push((1, we::ValType::I32));
+        let mut decls = env::local_decls(); decls.push((1, we::ValType::I32)); decls.push((1, we::ValType::I64)); decls.push((1, we::ValType::I32)); decls.push((4, we::ValType::I32));   // the last four: loop counters, one per nesting depth
         let mut wf = we::Function::new(decls);
         for ins in &body { wf.instruction(ins); }
         wf.instruction(&I::End);
